@@ -45,13 +45,20 @@ class UnitarySerializedEmulator(IndependentSubcircuitsBackend):
         circ = job.circuit
         n_qubits = self.get_n_qubits(circ)
 
-        hilb_dim = 2**n_qubits
         gatedefs = circ.native_gates
 
         # vec = U * inp
         # We don't need to initialize inp yet
-        inp = numpy.empty(hilb_dim, dtype=complex)
-        vec = numpy.zeros(hilb_dim, dtype=complex)
+        try:
+            if n_qubits >= 64:
+                raise OverflowError
+            hilb_dim = 2**n_qubits
+            inp = numpy.empty(hilb_dim, dtype=complex)
+            vec = numpy.zeros(hilb_dim, dtype=complex)
+        except (OverflowError, ValueError, MemoryError):
+            raise JaqalError(
+                f"Cannot emulate {n_qubits} qubits: the state vector does not fit in memory"
+            )
         vec[0] = 1
 
         # We serialize the subcircuit, obtaining a list of gates.
